@@ -5,11 +5,15 @@
 (* the value captured when the template was loaded (property C17).          *)
 (*                                                                         *)
 (* A template DEFINITION (what the caller passes to a load call) is         *)
-(*   [k    |-> "str" | "doc",    loaded from a string / from a document    *)
+(*   [k    |-> "str" | "doc" | "file", loaded from a string / a document /     *)
+(*                               a .docx file (TemplateRenderer.Load-       *)
+(*                               TemplateFromFile); "doc" and "file" are    *)
+(*                               DOCUMENT templates                         *)
 (*    tag  |-> STRING,           makes every text of the definition unique *)
 (*    ext  |-> STRING,           name of the template it extends, "" none   *)
 (*    blk  |-> SUBSET {"b1","b2"}, the blocks it defines                    *)
 (*    rich |-> BOOLEAN]          source also has each / if / image lines    *)
+(*                               (and, for a document, a third table)       *)
 (* A template VALUE is [id, def, parent] with parent a VALUE or None: the   *)
 (* parent is resolved once, when the child is loaded, and is part of the    *)
 (* value from then on (later reloads / removals of the parent's name do     *)
@@ -20,8 +24,13 @@
 (*                                                 LoadTemplateFromDocument *)
 (*                    [op |-> "Render", n, e, data] e = "doc": RenderTo-    *)
 (*                                                 Document, "tpl": Render- *)
-(*                                                 TemplateToDocument       *)
+(*                                                 TemplateToDocument,      *)
+(*                                                 "rnd": TemplateRenderer. *)
+(*                                                 RenderTemplate           *)
 (*                    [op |-> "Get", n] [op |-> "Validate", n]              *)
+(*                    [op |-> "Analyze", n]        TemplateRenderer.Analyze-*)
+(*                                                 Template + GetRequired-  *)
+(*                                                 Data (a reader)          *)
 (*                    [op |-> "Remove", n] [op |-> "Clear"]                 *)
 (*                    [op |-> "SetBasePath"]                                *)
 (*                                                                         *)
@@ -58,18 +67,133 @@ Src(def) ==
   \o <<Line("var", "", "{{v}}", "")>>
   \o (IF def.rich THEN RichLines ELSE <<>>)
 
+IsDoc(def) == def.k \in {"doc", "file"}   \* a document template (its base document is cloned by a render)
+
 HdrRaw == "HDR {{v}}{{#if c}} ON{{/if}}"   \* every document template carries this page header (a variable and a conditional)
 HdrOut(d) == "HDR " \o d.v \o (IF d.c THEN " ON" ELSE "")
 \* the text a load call extracts: a document contributes its paragraphs, its header text
-\* and a final newline (hence one empty last line)
+\* and a final newline (hence one empty last line); tables contribute nothing
 ContentSrc(def) ==
-  IF def.k = "doc" THEN Src(def) \o <<Line("hdr", "", HdrRaw, ""), Line("lit", "", "", "")>>
+  IF IsDoc(def) THEN Src(def) \o <<Line("hdr", "", HdrRaw, ""), Line("lit", "", "", "")>>
   ELSE Src(def)
 
-\* an operation as handed to the executor: load calls carry the concrete source lines
+\* ---- tables of a document template ---------------------------------------------
+\* A table is a sequence of rows, a row a sequence of cells, a cell
+\*   [t |-> kind, x |-> literal text, l |-> list name, nest |-> NoCell or the only cell of a nested 1x1 table]
+\*   "lit"   x                                   literal
+\*   "var"   x{{v}}                              a variable
+\*   "vs1"   {{v}}x   in two runs  "{" "{v}}x"     the opening braces split between runs
+\*   "vs2"   x{{v}}   in three runs x"{{" "v" "}}"  the name in a run of its own
+\*   "open"  {{#each l}}{{name}}                 first cell of a row loop
+\*   "close" x{{/each}}                          last cell of a row loop
+\*   "name"  x{{name}}                           a field of the loop item (nested table of a loop row)
+\*   "sum"   {{#if c}}x{{/if}}{{#each l}}[{{name}}]{{/each}} end    a whole loop inside one cell paragraph
+\* The row loop of a table is its first row that holds an {{#each}} ("open" or "sum" cell). Only the shapes
+\* whose rendering the library defines are given a meaning: WellFormedTbl.
+NoCell == [t |-> ""]
+Cell(t, x, l) == [t |-> t, x |-> x, l |-> l, nest |-> NoCell]
+CellN(t, x, l, nt, nx) == [t |-> t, x |-> x, l |-> l, nest |-> [t |-> nt, x |-> nx, l |-> "", nest |-> NoCell]]
+
+CellRuns(c) ==
+  CASE c.t = "lit"   -> <<c.x>>
+    [] c.t = "var"   -> <<c.x \o "{{v}}">>
+    [] c.t = "vs1"   -> <<"{", "{v}}" \o c.x>>
+    [] c.t = "vs2"   -> <<c.x \o "{{", "v", "}}">>
+    [] c.t = "open"  -> <<"{{#each " \o c.l \o "}}{{name}}">>
+    [] c.t = "close" -> <<c.x \o "{{/each}}">>
+    [] c.t = "name"  -> <<c.x \o "{{name}}">>
+    [] c.t = "sum"   -> <<"{{#if c}}" \o c.x \o "{{/if}}{{#each " \o c.l \o "}}[{{name}}]{{/each}} end">>
+    [] OTHER         -> <<"?">>
+RECURSIVE Cat(_)
+Cat(ss) == IF ss = <<>> THEN "" ELSE ss[1] \o Cat(Tail(ss))
+CellRaw(c) == Cat(CellRuns(c))
+
+\* data = [v |-> STRING, items |-> Seq(STRING), c |-> BOOLEAN, ik |-> kind of the items of list "items"]; an image "img" is
+\* always supplied.  Item kinds:  "map"   map[string]interface{} with field "name"   (the documented form)
+\*                                "nokey" map[string]interface{} without that field
+\*                                "smap"  map[string]string,  "str"  a plain string   (not maps for the engine)
+\* Loops only expand over items that are map[string]interface{}; a field the item lacks stays as written.
+\* Only the "map" kind is documented: what the other kinds render to is the reference machine's choice (it needs one to be
+\* a function) and is NOT demanded of the library - the judge demands of them only what C17 states: the same result every
+\* time and for every thread, nothing modified (Documented, Engine_Trace).
+Documented(d) == d.ik = "map"
+ItemsAreMaps(d) == d.ik \in {"map", "nokey"}
+NameOf(d, j) == IF d.ik = "map" THEN d.items[j] ELSE "{{name}}"       \* what {{name}} shows for item j
+ListLen(d, l) == IF l = "items" THEN Len(d.items) ELSE 0               \* every other list is not in the data
+MapLen(d, l) == IF ItemsAreMaps(d) THEN ListLen(d, l) ELSE 0
+RECURSIVE SumItems(_, _)
+SumItems(d, j) == IF j = 0 THEN "" ELSE SumItems(d, j - 1) \o "[" \o NameOf(d, j) \o "]"
+
+\* a cell paragraph outside the row loop: variables, conditionals and whole in-cell loops
+CellPlain(c, d) ==
+  CASE c.t \in {"var", "vs2"} -> c.x \o d.v
+    [] c.t = "vs1"            -> d.v \o c.x
+    [] c.t = "sum"            -> (IF d.c THEN c.x ELSE "") \o SumItems(d, MapLen(d, c.l)) \o " end"
+    [] OTHER                  -> CellRaw(c)
+\* a cell paragraph of the row loop for item j (markers removed, fields of the item substituted)
+CellItem(c, d, j) ==
+  CASE c.t = "open"  -> NameOf(d, j)
+    [] c.t = "close" -> c.x
+    [] c.t = "name"  -> c.x \o NameOf(d, j)
+    [] OTHER         -> CellRaw(c)
+
+Nest(c, txt) == IF c.nest.t = "" THEN "" ELSE "[" \o txt \o "]"
+RECURSIVE JoinCells(_)
+JoinCells(ss) == IF ss = <<>> THEN "" ELSE IF Len(ss) = 1 THEN ss[1] ELSE ss[1] \o "|" \o JoinCells(Tail(ss))
+\* projection of a row: cell texts joined by "|", a nested table in brackets after the text of its cell
+RowRaw(r)        == JoinCells([i \in 1..Len(r) |-> CellRaw(r[i]) \o Nest(r[i], CellRaw(r[i].nest))])
+RowPlain(r, d)   == JoinCells([i \in 1..Len(r) |-> CellPlain(r[i], d) \o Nest(r[i], CellPlain(r[i].nest, d))])
+RowItem(r, d, j) == JoinCells([i \in 1..Len(r) |-> CellItem(r[i], d, j) \o Nest(r[i], CellItem(r[i].nest, d, j))])
+
+HasEach(r) == \E i \in 1..Len(r) : r[i].t \in {"open", "sum"}
+LoopRow(tb) == IF \E k \in 1..Len(tb) : HasEach(tb[k]) THEN CHOOSE k \in 1..Len(tb) : HasEach(tb[k]) /\ \A m \in 1..(k - 1) : ~HasEach(tb[m]) ELSE 0
+LoopList(r) == LET i == CHOOSE i \in 1..Len(r) : r[i].t \in {"open", "sum"} /\ \A m \in 1..(i - 1) : r[m].t \notin {"open", "sum"} IN r[i].l
+
+\* the row loop consists of open/close/lit cells (nested: name/lit); no other row opens a loop it does not close;
+\* an in-cell loop always comes with a conditional (the "sum" shape)
+WellFormedTbl(tb) ==
+  LET k == LoopRow(tb) IN
+    /\ \A m \in 1..Len(tb) : \A i \in 1..Len(tb[m]) :
+         /\ tb[m][i].t \in (IF m = k THEN {"open", "close", "lit"} ELSE {"lit", "var", "vs1", "vs2", "sum"})
+         /\ tb[m][i].nest.t \in (IF m = k THEN {"", "name", "lit"} ELSE {"", "lit", "var"})
+    /\ k # 0 => tb[k][1].t = "open" /\ tb[k][Len(tb[k])].t = "close"
+
+\* rows of a table as RenderTemplateToDocument leaves them
+TableOut(tb, d) ==
+  LET k == LoopRow(tb)
+      plain(a, b) == [m \in 1..(b - a + 1) |-> RowPlain(tb[a + m - 1], d)]
+  IN IF k = 0 THEN plain(1, Len(tb))
+     ELSE plain(1, k - 1)
+          \o [j \in 1..ListLen(d, LoopList(tb[k])) |-> IF ItemsAreMaps(d) THEN RowItem(tb[k], d, j) ELSE RowRaw(tb[k])]
+          \o plain(k + 1, Len(tb))
+
+TblSplit == << <<Cell("vs1", " tail", ""), Cell("lit", "static", "")>>,                 \* row 1: no complete "{{" in any single run
+               <<CellN("var", "cell ", "", "var", "nested "), Cell("vs2", "head ", "")>> >>
+TblLoop  == << <<Cell("lit", "Name", ""), Cell("lit", "Detail", "")>>,
+               <<Cell("open", "", "items"), CellN("close", "d ", "", "name", "of ")>>,    \* the row loop, a nested table in it
+               <<Cell("sum", "S: ", "items"), Cell("var", "tot ", "")>> >>                \* summary row after the row loop
+TblNone  == << <<Cell("open", "", "none"), Cell("close", "x", "")>>,                     \* a row loop over a list nobody supplies
+               <<Cell("sum", "T: ", "items"), Cell("lit", "static", "")>> >>
+
+Tbls(def) == IF ~IsDoc(def) THEN <<>> ELSE IF def.rich THEN <<TblSplit, TblLoop, TblNone>> ELSE <<TblSplit, TblLoop>>
+
+\* projection of all tables of a document: "=" opens a table, then one string per row
+RECURSIVE Flat(_)
+Flat(ss) == IF ss = <<>> THEN <<>> ELSE ss[1] \o Flat(Tail(ss))
+TblsRaw(def)    == LET ts == Tbls(def) IN Flat([i \in 1..Len(ts) |-> <<"=">> \o [m \in 1..Len(ts[i]) |-> RowRaw(ts[i][m])]])
+TblsOut(def, d) == LET ts == Tbls(def) IN Flat([i \in 1..Len(ts) |-> <<"=">> \o TableOut(ts[i], d)])
+
+\* an operation as handed to the executor: load calls carry the concrete source lines and tables
+\* (table -> row -> cell -> [runs, nest]: the runs of the cell paragraph, the runs of the nested 1x1 table's cell or <<>>)
+ConcTbls(def) ==
+  LET ts == Tbls(def) IN
+    [i \in 1..Len(ts) |-> [m \in 1..Len(ts[i]) |-> [c \in 1..Len(ts[i][m]) |->
+        [runs |-> CellRuns(ts[i][m][c]),
+         nest |-> IF ts[i][m][c].nest.t = "" THEN <<>> ELSE CellRuns(ts[i][m][c].nest)]]]]
 Conc(op) == IF op.op = "Load"
             THEN [op |-> "Load", n |-> op.n, def |-> op.def,
-                  src |-> [i \in 1..Len(Src(op.def)) |-> Src(op.def)[i].raw]]
+                  src |-> [i \in 1..Len(Src(op.def)) |-> Src(op.def)[i].raw],
+                  tbls |-> ConcTbls(op.def)]
             ELSE op
 
 \* ---- values ---------------------------------------------------------------
@@ -90,9 +214,9 @@ Resolve(v, b) == IF b \in v.def.blk THEN Tok(v.def, b)
 PureRes(v) == [b \in RootOf(v).def.blk |-> Resolve(v, b)]
 
 \* ---- rendering as a pure function ------------------------------------------
-\* data = [v |-> STRING, items |-> Seq(STRING), c |-> BOOLEAN]; an image "img" is always supplied
-RECURSIVE EachOut(_)
-EachOut(items) == IF items = <<>> THEN "" ELSE items[1] \o ";" \o EachOut(Tail(items))
+\* a loop of a string template emits its body once per item, whatever the item is
+RECURSIVE EachOut(_, _)
+EachOut(d, j) == IF j = 0 THEN "" ELSE EachOut(d, j - 1) \o NameOf(d, j) \o ";"
 
 ImgOut == "<img>"                      \* projection of a paragraph that holds a drawing
 
@@ -102,7 +226,7 @@ TextLine(ln, res, d) ==
     [] ln.t = "lit"  -> ln.tok
     [] ln.t = "blk"  -> res[ln.b]
     [] ln.t = "var"  -> d.v
-    [] ln.t = "each" -> EachOut(d.items)
+    [] ln.t = "each" -> EachOut(d, Len(d.items))
     [] ln.t = "if"   -> (IF d.c THEN "yes" ELSE "")
     [] ln.t = "img"  -> ImgOut
     [] ln.t = "hdr"  -> HdrOut(d)
@@ -116,25 +240,28 @@ BaseLines(def) ==
   LET src == Src(def) IN [i \in 1..Len(src) |-> IF src[i].t = "img" THEN ImgOut ELSE src[i].raw]
 
 \* in-place substitution done by RenderTemplateToDocument on a copy of the base document
-RECURSIVE Flat(_)
-Flat(ss) == IF ss = <<>> THEN <<>> ELSE ss[1] \o Flat(Tail(ss))
+\* (a loop paragraph is repeated once per item that is a map)
 InPlaceLine(ln, d) ==
   CASE ln.t = "var"  -> <<d.v>>
-    [] ln.t = "each" -> [j \in 1..Len(d.items) |-> d.items[j] \o ";"]
+    [] ln.t = "each" -> [j \in 1..MapLen(d, "items") |-> NameOf(d, j) \o ";"]
     [] ln.t = "if"   -> <<IF d.c THEN "yes" ELSE "">>
     [] ln.t = "img"  -> <<ImgOut>>
     [] OTHER         -> <<ln.raw>>
 InPlace(def, d) == LET src == Src(def) IN Flat([i \in 1..Len(src) |-> InPlaceLine(src[i], d)])
 
-Rendered(paras, hdr) == [st |-> "ok", paras |-> paras, hdr |-> hdr]
-RenderErr == [st |-> "err", paras |-> <<>>, hdr |-> ""]
+\* projection of a rendered document: top-level paragraphs, header text, table rows
+Rendered(paras, hdr, tbl) == [st |-> "ok", paras |-> paras, hdr |-> hdr, tbl |-> tbl]
+RenderErr == [st |-> "err", paras |-> <<>>, hdr |-> "", tbl |-> <<>>]
+
+\* the code path behind an entry point: TemplateRenderer.RenderTemplate checks the data and calls RenderTemplateToDocument
+EntryCode(e) == IF e = "rnd" THEN "tpl" ELSE e
 
 \* def: definition of the rendered template; rootdef/res: root of its chain and the block
 \* contents shown; e: entry point
 RenderWith(def, rootdef, res, d, e) ==
-  IF def.k = "str" THEN Rendered(TextLines(rootdef, res, d), "")
-  ELSE IF e = "doc" THEN Rendered(BaseLines(def) \o TextLines(rootdef, res, d), HdrRaw)
-  ELSE Rendered(InPlace(def, d), HdrOut(d))
+  IF ~IsDoc(def) THEN Rendered(TextLines(rootdef, res, d), "", <<>>)
+  ELSE IF EntryCode(e) = "doc" THEN Rendered(BaseLines(def) \o TextLines(rootdef, res, d), HdrRaw, TblsRaw(def))
+  ELSE Rendered(InPlace(def, d), HdrOut(d), TblsOut(def, d))
 
 PureRender(v, d, e) ==
   IF v.id = 0 THEN RenderErr ELSE RenderWith(v.def, RootOf(v).def, PureRes(v), d, e)
@@ -146,7 +273,7 @@ Lookup(c, n) == IF n \in DOMAIN c THEN c[n] ELSE None
 Drop(c, n) == [x \in (DOMAIN c) \ {n} |-> c[x]]
 
 Mutators == {"Load", "Remove", "Clear"}
-Readers  == {"Render", "Get", "Validate", "SetBasePath"}
+Readers  == {"Render", "Get", "Validate", "SetBasePath", "Analyze"}
 
 NewValue(s, op) ==
   [id |-> s.nid, def |-> op.def,
@@ -160,7 +287,7 @@ Apply(s, op) ==
 
 \* status returned ("ok" / "err"); the document a render returns is RenderRet
 Ret(s, op) ==
-  CASE op.op \in {"Get", "Validate", "Render"} -> (IF op.n \in DOMAIN s.cache THEN "ok" ELSE "err")
+  CASE op.op \in {"Get", "Validate", "Render", "Analyze"} -> (IF op.n \in DOMAIN s.cache THEN "ok" ELSE "err")
     [] OTHER -> "ok"
 
 RenderRet(s, op) == PureRender(Lookup(s.cache, op.n), op.data, op.e)
@@ -172,7 +299,7 @@ CacheIds(s, N) == [n \in N |-> Lookup(s.cache, n).id]
 
 \* names and data the executors observe with after every step / run
 NamePool == {"base", "A", "B", "G"}
-ProbeData == [v |-> "val1", items |-> <<"n1", "n2">>, c |-> TRUE]
+ProbeData == [v |-> "val1", items |-> <<"n1", "n2">>, c |-> TRUE, ik |-> "map"]
 
 \* ---- witness sets ------------------------------------------------------------
 \* class of a value by its depth in the inheritance chain
@@ -184,11 +311,12 @@ LineKinds(v, e) ==
   LET rs == ContentSrc(RootOf(v).def)
       tk == [i \in 1..Len(rs) |-> rs[i].t]
       bk == [i \in 1..Len(Src(v.def)) |-> "base"]
-  IN IF v.def.k = "str" THEN tk ELSE IF e = "doc" THEN bk \o tk ELSE <<>>
+  IN IF ~IsDoc(v.def) THEN tk ELSE IF EntryCode(e) = "doc" THEN bk \o tk ELSE <<>>
 
 DiffKind(v, e, exp, obs) ==
   IF obs.st # exp.st THEN "status"
   ELSE IF obs.hdr # exp.hdr THEN "hdr"
+  ELSE IF obs.tbl # exp.tbl THEN "tbl"
   ELSE IF Len(obs.paras) # Len(exp.paras) THEN "length"
   ELSE LET ks == LineKinds(v, e)
            D  == {i \in 1..Len(exp.paras) : obs.paras[i] # exp.paras[i]}
@@ -210,6 +338,7 @@ OpClass(s, op, w) ==
     [] op.op = "Remove" -> "remove"
     [] op.op = "Clear"  -> "clear"
     [] op.op = "Render" -> "render"
+    [] op.op = "Analyze" -> "analyze"
     [] OTHER            -> "read"
 
 \* ---- the as-built machine (self-test and schedule generation only) --------------
